@@ -6,4 +6,5 @@ CONSTANTS
   MaxB = 18
   Dev = {"DivZero"}
 INVARIANTS TypeOK NoCrash
+CONSTRAINT FewEv
 CHECK_DEADLOCK FALSE
